@@ -198,7 +198,7 @@ impl Check for WeightsAndClaims {
             .boxed()
     }
     fn cases(&self, tier: Tier) -> u32 {
-        tier.pick(25_000, 1_500_000)
+        tier.pick(25_000, 900_000)
     }
     fn min_nontrivial(&self) -> f64 {
         0.02
